@@ -7,7 +7,7 @@
 (* tree, so what matters is WHERE the chain sits: alone, as left or right  *)
 (* operand, below a second operator, with siblings before and after it.    *)
 (* A tree here is Context[Trigger]:                                        *)
-(*   Trigger = u1(u2(..(leaf)))  with 1..ChainMax unary operators          *)
+(*   Trigger = u1(u2(..(leaf)))  with 1..ChainMax <= 5 unary operators     *)
 (*   Context = the hole; hole b l; l b hole; (g b hole) c l;               *)
 (*             (hole b g) c l; l c (g b hole); l c (hole b g);             *)
 (*             u(hole b l); u(l b hole)                                    *)
@@ -18,7 +18,8 @@
 EXTENDS Naturals, Sequences, FiniteSets, TLC, Json
 
 CONSTANTS B1, B2,      \* sequences of the unary / binary operator names of the basis
-          ChainMax
+          ChainMax,      \* 1..5: longest chain of unary operators
+          KindSet        \* the contexts used, a subset of 1..9 ({1}: the bare chain - towers of powers over exp / log)
 
 Un  == {B1[i] : i \in 1..Len(B1)}
 Bin == {B2[i] : i \in 1..Len(B2)}
@@ -26,21 +27,22 @@ Leaves == {"x", "a"}
 Kinds == 1..9
 
 (* one state per (trigger, context); the variables a context does not use are pinned to a default *)
-VARIABLES len, u1, u2, u3, leaf,     \* the trigger: len unary operators (outermost first) over leaf
-          kind, b, c, g, l, u        \* the context
-vars == <<len, u1, u2, u3, leaf, kind, b, c, g, l, u>>
+VARIABLES len, u1, u2, u3, u4, u5, leaf,     \* the trigger: len unary operators (outermost first) over leaf
+          kind, b, c, g, l, u                \* the context
+vars == <<len, u1, u2, u3, u4, u5, leaf, kind, b, c, g, l, u>>
 D1 == B1[1]
 D2 == B2[1]
-Init == /\ len \in 1..ChainMax /\ u1 \in Un /\ u2 \in Un /\ u3 \in Un /\ leaf \in Leaves
-        /\ (len < 2 => u2 = D1) /\ (len < 3 => u3 = D1)
-        /\ kind \in Kinds /\ b \in Bin /\ c \in Bin /\ g \in Leaves /\ l \in Leaves /\ u \in Un
-        /\ (kind = 1 => b = D2 /\ l = "x")
-        /\ (kind \in {1, 2, 3, 8, 9} => c = D2 /\ g = "x")
-        /\ (kind \notin {8, 9} => u = D1)
+Pin(cond, S, d) == IF cond THEN S ELSE {d}
+Init == /\ kind \in KindSet
+        /\ b \in Pin(kind # 1, Bin, D2) /\ l \in Pin(kind # 1, Leaves, "x")
+        /\ c \in Pin(kind \in {4, 5, 6, 7}, Bin, D2) /\ g \in Pin(kind \in {4, 5, 6, 7}, Leaves, "x")
+        /\ u \in Pin(kind \in {8, 9}, Un, D1)
+        /\ len \in 1..ChainMax /\ u1 \in Un /\ leaf \in Leaves
+        /\ u2 \in Pin(len >= 2, Un, D1) /\ u3 \in Pin(len >= 3, Un, D1) /\ u4 \in Pin(len >= 4, Un, D1) /\ u5 \in Pin(len >= 5, Un, D1)
 Next == UNCHANGED vars
 Spec == Init /\ [][Next]_vars
 
-T == SubSeq(<<u1, u2, u3>>, 1, len) \o <<leaf>>
+T == SubSeq(<<u1, u2, u3, u4, u5>>, 1, len) \o <<leaf>>
 tree == CASE kind = 1 -> T
           [] kind = 2 -> <<b>> \o T \o <<l>>                 \* T b l
           [] kind = 3 -> <<b, l>> \o T                        \* l b T
